@@ -117,7 +117,7 @@ CHECKS = {
         text="Uci.tla: uci -> id lines then uciok; isready -> readyok; unknown / blank lines -> no output; quit and end of input -> exit "
              "status 0. TLC simulates interleavings with position/go, ending by quit or by closing stdin; the real binary is run; "
              "TLC validates outputs and exit status (UciTrace.tla). Unknown lines include blank / tab-only lines, lines that are not "
-             "valid UTF-8, NUL bytes and very long lines; the last command may arrive without a line terminator before end of input. Random malformed go lines through the hooked handler (GoParse.tla): a parser "
+             "valid UTF-8, NUL bytes and very long lines; the last command may arrive without a line terminator before end of input; every script is also written to stdin in ONE piece (nobody waits for answers: quit may already be buffered while earlier commands are answered); truncated / malformed lines that begin like a known command. Random malformed go lines through the hooked handler (GoParse.tla): a parser "
              "failure is a violation, a different parse is SPEC-DRIFT.",
         design_ref="DESIGN.md section 5, C16", note=_UCI_NOTE,
         technique="TLA+ protocol spec; TLC-simulated scripts run on the real binary; TLC trace validation"),
